@@ -103,9 +103,16 @@ def seq_set(s, i, x):
 
 def seq_slice(s, lo, hi):
     """s[lo:hi] with 0 <= lo <= hi <= len already normalised."""
+    if isinstance(lo, int) and lo == 0:
+        return SeqV(hi, s.elem, s.arrs, s.kind)
+    from . import ops
     j = z3.Int(fresh_name("j"))
     lo_t = to_int_term(lo) if not isinstance(lo, int) else lo
-    arrs = [z3.Lambda([j], z3.Select(a, j + lo_t)) for a in s.arrs]
+    arrs = []
+    for a in s.arrs:
+        r = z3.Array(fresh_name("slice"), z3.IntSort(), a.sort().range())
+        ops.define(r.decl().name(), z3.ForAll([j], z3.Select(r, j) == z3.Select(a, j + lo_t), patterns=[z3.Select(r, j)]))
+        arrs.append(r)
     return SeqV(hi - lo, s.elem, arrs, s.kind)
 
 
@@ -121,9 +128,20 @@ def seq_concat(a, b):
             v, _ = seq_get(b, k)
             out = seq_append(out, v)
         return SeqV(out.length, elem or a.elem, out.arrs, a.kind)
+    from . import ops
     j = z3.Int(fresh_name("j"))
     n = to_int_term(a.length)
-    arrs = [z3.Lambda([j], z3.If(j < n, z3.Select(x, j), z3.Select(y, j - n))) for x, y in zip(a.arrs, b.arrs)]
+    arrs = []
+    for x, y in zip(a.arrs, b.arrs):
+        r = z3.Array(fresh_name("concat"), z3.IntSort(), x.sort().range())
+        nm = r.decl().name()
+        if isinstance(a.length, int) and a.length <= 64:
+            for k in range(a.length):
+                ops.define(nm, z3.Select(r, k) == z3.Select(x, k))
+            ops.define(nm, z3.ForAll([j], z3.Implies(j >= a.length, z3.Select(r, j) == z3.Select(y, j - a.length)), patterns=[z3.Select(r, j)]))
+        else:
+            ops.define(nm, z3.ForAll([j], z3.Select(r, j) == z3.If(j < n, z3.Select(x, j), z3.Select(y, j - n)), patterns=[z3.Select(r, j)]))
+        arrs.append(r)
     return SeqV(a.length + b.length, elem or a.elem, arrs, a.kind)
 
 
